@@ -1358,10 +1358,18 @@ func EvalProgram(progSrc string, files []InputFile, rootSelectors []string, stdo
 
 			ev.setGlobal("$file", NewCell(NewValue(file.Name)))
 
-			// find the root value(s)
-			rootCells := make([]*Cell, 0)
-			if len(rootSelectors) > 0 {
-				for _, rootSelector := range rootSelectors {
+			// one pass per root selector, in the order given (a single pass over
+			// the value itself when there is none). A selector is evaluated when
+			// its pass begins: the rules of the selectors before it have run by
+			// then, and what it prints, its exit or its failure comes after them
+			passes := len(rootSelectors)
+			if passes == 0 {
+				passes = 1
+			}
+			for pass := 0; pass < passes; pass++ {
+				var rootCell *Cell
+				if len(rootSelectors) > 0 {
+					rootSelector := rootSelectors[pass]
 					cell, err := evalSelector(rootSelector, rootValue, stdout)
 					if err == errExit {
 						return &ev, nil
@@ -1372,17 +1380,13 @@ func EvalProgram(progSrc string, files []InputFile, rootSelectors []string, stdo
 					// the selected value becomes the root by the ordinary copy rule,
 					// exactly as BEGINFILE { $ = selector } would store it: a missing
 					// member is a plain null, not a cell that later stores bring to life
-					rootCell, err := copyValue(cell, &Cell{})
+					rootCell, err = copyValue(cell, &Cell{})
 					if err != nil {
 						return &ev, RuntimeError{Message: err.Error(), Line: 1, SrcLine: strings.SplitN(rootSelector, "\n", 2)[0]}
 					}
-					rootCells = append(rootCells, rootCell)
+				} else {
+					rootCell = NewCell(NewValue(rootValue))
 				}
-			} else {
-				rootCells = append(rootCells, NewCell(NewValue(rootValue)))
-			}
-
-			for _, rootCell := range rootCells {
 				var rootVal = rootCell.Value
 
 				// this is the root from here on: exit in a BEGINFILE rule leaves
